@@ -418,6 +418,22 @@ def reresolve(rec, stats):
             t["resolved"] = "<I as core::iter::IntoIterator>::into_iter"
             t["rargs"] = [ca[0]]
             changed = True
+        elif t.get("callee") in CLOSURE_CALLS and len(ca) == 2 and ca[0].get("k") == "fndef" and ca[0].get("path") and not ca[0].get("args") \
+                and len(t.get("args", [])) == 2 and t["args"][1]["k"] in ("move", "copy") and ca[1].get("k") == "tuple":
+            # `f(x)` inside a generic helper instantiated with a function item (`decode_frag_list(par, len, msgN_sat::decode)`): the call of
+            # that function with the tuple's fields
+            tup = t["args"][1]
+            elems = ca[1].get("elems") or []
+            t["args"] = [{"k": tup["k"], "place": {"local": tup["place"]["local"], "proj": list(tup["place"]["proj"]) + [{"k": "field", "i": i, "ty": ety}]}}
+                         for i, ety in enumerate(elems)]
+            t["callee"] = ca[0]["path"]
+            t["resolved"] = ca[0]["path"]
+            t["cargs"] = []
+            t["rargs"] = []
+            t["rkind"] = "item"
+            t.pop("fnop", None)
+            changed = True
+            stats.setdefault(rec["path"], []).append("fn-item-call")
     # operator traits on primitive numbers (`a - b`, `a >= b` in a generic helper instantiated at i8 / f64): the MIR of the operator itself.
     # `impl Sub for i8` etc. are #[rustc_inherit_overflow_checks]: they panic on overflow exactly when `a - b` written in this crate would,
     # so the integer forms become the checked operation followed by the overflow assertion, as rustc emits for the expression.
